@@ -243,6 +243,8 @@ def arr_getitem(interp, v, idx, numba, node):
                 ln = slice_len(start, stop)
                 base = Arr(ln, (lambda k, v=v, start=start: v.fn(ops.arith('+', k, start))), np=True, cols=v.cols,
                            view=True, vbase=v, voff=start)
+                if NPVEC[0] is not None and isinstance(ln, int) and isinstance(start, int) and ln <= 4096:
+                    return Vec([v.fn(start + kk).e[c] for kk in range(ln)])
                 return Arr(ln, (lambda k, fn=v.fn, start=start, c=c: fn(ops.arith('+', k, start)).e[c]), np=True,
                            view=True, prov=('rowmap', (lambda row, c=c: row.e[c]), base))
             i = check_index(interp, v, r, numba, node)
@@ -282,7 +284,7 @@ def dict_lookup(interp, d, key):
 def setitem(interp, v, idx, val, numba=False, node=None):
     from .interp import SliceVal
     ctx = interp.ctx
-    if ctx.pure:
+    if ctx.pure and not (getattr(ctx, 'merge', 0) and isinstance(v, Vec) and isinstance(idx, int)):
         raise NotPure()
     if isinstance(v, dict):
         if isinstance(idx, Sym):
@@ -752,8 +754,15 @@ def reduce_arr(interp, kind, a):
 
 
 # ---------------------------------------------------------------------------- methods of values
+NPVEC = [None]
+
+
 def method_of(interp, v, name):
     from .interp import Builtin, TypeRef
+    if NPVEC[0] is not None and isinstance(v, (Vec, Arr)):
+        r = NPVEC[0].vec_methods(interp, v, name)
+        if r is not None:
+            return r
     if isinstance(v, (Vec, Arr)) and (not isinstance(v, Arr) or v.np):
         if name == 'shape':
             if isinstance(v, Vec):
@@ -847,6 +856,8 @@ def method_of(interp, v, name):
                         return j
                 raise RaiseSignal('ValueError', 'not in list')
             return Builtin('list.index', idx)
+    if isinstance(v, NTuple) and name in v._fields:
+        return v[v._fields.index(name)]
     if isinstance(v, tuple):
         if name == 'index':
             return method_of(interp, list(v), name)
@@ -1793,6 +1804,28 @@ def _pydash_find(i, a, k):
     return None
 
 
+class NTuple(tuple):
+    """collections.namedtuple instance"""
+    _fields = ()
+
+
+def _namedtuple(i, a, k):
+    from .interp import Builtin
+    tname, fields = a[0], a[1]
+    if isinstance(fields, str):
+        fields = fields.replace(',', ' ').split()
+    fields = tuple(fields)
+
+    def make(i2, a2, k2, fields=fields):
+        vals = list(a2) + [None] * (len(fields) - len(a2))
+        for kk, vv in k2.items():
+            vals[fields.index(kk)] = vv
+        t = NTuple(vals)
+        t._fields = fields
+        return t
+    return Builtin('namedtuple ' + str(tname), make)
+
+
 _EXT = None
 
 
@@ -1815,7 +1848,7 @@ def ext_call(name):
             'numpy.sqrt': lambda i, a, k: elementwise1(i, lambda x: np_sqrt_scalar(i, x), a[0]),
             'math.isnan': _math_isnan, 'math.floor': _math_floor, 'math.ceil': _math_ceil, 'math.sqrt': _math_sqrt,
             'math.fabs': _b_abs,
-            'pydash.find': _pydash_find,
+            'pydash.find': _pydash_find, 'collections.namedtuple': _namedtuple,
             'decimal.Decimal': _decimal, 'copy.deepcopy': _copy_deepcopy, 'copy.copy': lambda i, a, k: snapshot(a[0]),
         }
     f = _EXT.get(name)
